@@ -99,6 +99,7 @@ func xmodelDoUndo(c *q.Ctx) {
 }
 
 func c01(c *q.Ctx) {
+	zeroOutputTest(c)
 	const st = "bcs/ledger/xledger/state::"
 	utxoInverse(c)
 	feeInverse(c)
